@@ -12,16 +12,26 @@ Clauses
                              Style.parse) parses to the style with exactly that attribute on; "not <word>" to off
   c06.spelling:color         every ANSI_COLOR_NAMES entry, color(n), #rrggbb, rgb(r,g,b), default: the colour it names,
                              as foreground and after "on" as background
+  c06.spelling:hex_case      "#RRGGBB" is "three pairs of hex characters": the upper-case and mixed-case spellings of the
+                             hex digits name the same colour, so as a foreground word, after "on", and as the color= /
+                             bgcolor= keyword (string or Color.parse object) they give a style equal to (and hashing
+                             like) the one the lower-case spelling gives
   c06.spelling:link          "link <url>"
   c06.spelling:out_of_range  color(n) with n > 255 and rgb() components > 255 are not colours (documented range
                              0..255): StyleSyntaxError / ColorParseError
   c06.add:right_bias         a + b observes like model_add(a, b) (per attribute, colour, bgcolor, link)
   c06.add:identity           null + a == a == a + null (Style.null(), Style(), None on the right)
   c06.add:associative        (a + b) + c == a + (b + c)
+  c06.combine:fold           Style.combine(seq) (list / tuple / iterator) and Style.chain(*seq) are the fold of + over the
+                             sequence: they observe like the model's fold (the right-most style that specifies a field
+                             wins), equal the keyword-built style of that model and (a + b) + c, and hash like them -
+                             over sequences of length 1..4 that repeat a style ([a, b, a], [a, a, b], [a, b, b, a],
+                             [b, a, b, a], ...) and over triples of the pool
   c06.route_eq:<route>       a style built by <route> equals the keyword-built style of the same model
   c06.hash_eq:<route>        ... and then has the same hash (and finds it as a dict key)
-routes: parse, normalize, add (a + b over a split of the model), combine, chain, copy, update_link,
-without_color, from_color, null.
+routes: parse, normalize, add (a + b over a split of the model), combine, chain, combine_repeat / chain_repeat
+(the sequence [right, left, right], in which the repeated operand re-asserts what the middle one overrode), copy,
+update_link, without_color, from_color, null.
 """
 from __future__ import annotations
 
@@ -181,6 +191,23 @@ def lattice(n: int) -> List[int]:
     return sorted(set(round(i * 255 / (n - 1)) for i in range(n)))
 
 
+def hex_case_variants(h: str) -> List[str]:
+    """the other spellings of the hex digits of a lower-case "#rrggbb": upper case and the two alternating mixed cases
+    (only those that differ from h, i.e. none if h has no digit a-f)"""
+    digits = h[1:]
+    cands = [
+        digits.upper(),
+        "".join(ch.upper() if k % 2 == 0 else ch for k, ch in enumerate(digits)),
+        "".join(ch.upper() if k % 2 == 1 else ch for k, ch in enumerate(digits)),
+    ]
+    out: List[str] = []
+    for cand in cands:
+        v = "#" + cand
+        if v != h and v not in out:
+            out.append(v)
+    return out
+
+
 def colour_spellings(tier: str) -> List[Optional[str]]:
     quick = tier == "quick"
     out: List[Optional[str]] = [None, "default"] + STANDARD_NAMES
@@ -191,10 +218,16 @@ def colour_spellings(tier: str) -> List[Optional[str]]:
             for b in lat:
                 out.append("#%02x%02x%02x" % (r, g, b))
                 out.append("rgb(%d,%d,%d)" % (r, g, b))
+    # hex digits in upper / mixed case ("three pairs of hex characters"): every variant on a coarser lattice
+    lat = lattice(6 if quick else 9)
+    for r in lat:
+        for g in lat:
+            for b in lat:
+                out.extend(hex_case_variants("#%02x%02x%02x" % (r, g, b)))
     return out
 
 
-SMALL_COLOURS = [None, "default", "red", "bright_blue", "white", "color(0)", "color(9)", "color(200)", "#000000", "#ff8000", "rgb(0,0,0)", "rgb(255,128,1)"]
+SMALL_COLOURS = [None, "default", "red", "bright_blue", "white", "color(0)", "color(9)", "color(200)", "#000000", "#ff8000", "rgb(0,0,0)", "rgb(255,128,1)", "#FF8000", "#c0FfEe"]
 
 
 def style_space(tier: str, seed: int) -> List[M]:
@@ -239,7 +272,8 @@ def style_space(tier: str, seed: int) -> List[M]:
 def algebra_pool(tier: str, seed: int) -> List[M]:
     rows = attribute_rows()
     rng = random.Random(seed + 17)
-    pool = [M(), M(color="default"), M(bgcolor="default"), M(link="foo"), M(link="bar"), M(color="red"), M(color="color(1)"), M(bgcolor="#010203")]
+    pool = [M(), M(color="default"), M(bgcolor="default"), M(link="foo"), M(link="bar"), M(color="red"), M(color="color(1)"), M(bgcolor="#010203"),
+            M(color="#FF8000"), M(bgcolor="#c0FfEe")]
     for i in (0, 1, 2, 5, 9, 13, 14, 22, 26):
         pool.append(M(rows[i]))
     for i in (3, 4, 7, 11, 17, 20, 25):
@@ -346,6 +380,9 @@ def check_style(m: M, res, rng: random.Random):
         "combine": lambda: Style.combine([build(left), build(right)]),
         "chain": lambda: Style.chain(Style.null(), build(left), build(right), Style()),
         "add_null": lambda: (Style.null() + build(m)) + Style(),
+        # a sequence that repeats a style: the second occurrence of `right` re-asserts whatever `left` overrode
+        "combine_repeat": lambda: Style.combine([build(right), build(left), build(right)]),
+        "chain_repeat": lambda: Style.chain(build(right), build(left), build(right)),
     }
     nolink = M(m.attrs, m.color, m.bgcolor, None if mask & 1 else "http://old")
     def _update_link():
@@ -374,7 +411,7 @@ def check_style(m: M, res, rng: random.Random):
         _count(res, eq_clause)
         r = _safe(make)
         detail = {"style": kw, "route": name}
-        if name in ("add", "combine", "chain"):
+        if name in ("add", "combine", "chain", "combine_repeat", "chain_repeat"):
             detail["left"] = left.describe()
             detail["right"] = right.describe()
         if name == "update_link":
@@ -448,6 +485,52 @@ def check_spellings(res):
                 expect("c06.spelling:color", h, M(color=h))
                 expect("c06.spelling:color", "on " + t, M(bgcolor=t))
                 expect("c06.spelling:color", t + " on " + h, M(color=t, bgcolor=h))
+    # the hex digits of "#rrggbb" in upper / mixed case name the same colour, hence the same style, wherever the
+    # spelling is given: as a word of a definition, after "on", or as the color= / bgcolor= keyword
+    def same_style(tag, definition, canonical, make, make_canonical, m: M):
+        res["evaluations"] += 1
+        res["nontrivial"].add(("hex_case", tag, definition))
+        _count(res, "c06.spelling:hex_case")
+        r = _safe(lambda: (make(), make_canonical()))
+        want = model_observation(m)
+        inp = {"form": tag, "spelling": definition, "lower_case_spelling": canonical}
+        ikey = "%s %r" % (tag, definition)
+        if r[0] != "ok":
+            _fail(res, "c06.spelling:hex_case", "a documented hex spelling is rejected", ikey, inp, repr(want), r[1], len(definition))
+            return
+        x, y = r[1]
+        ok_obs = observe(x) == want and observe(y) == want
+        ok_eq = x == y and y == x
+        if not ok_obs or not ok_eq:
+            _fail(res, "c06.spelling:hex_case", "upper/mixed-case hex spelling does not give the style the lower-case spelling gives", ikey, inp,
+                  {"observes": repr(want), "equal_to_lower_case": True}, {"observes": repr(observe(x)), "equal_to_lower_case": ok_eq, "str": str(x), "str_lower_case": str(y)}, len(definition))
+            return
+        found = {y: 1}.get(x)
+        if hash(x) != hash(y) or found != 1:
+            _fail(res, "c06.spelling:hex_case", "equal styles (hex spellings of one colour) with different hashes", ikey, inp,
+                  {"same_hash": True, "found_as_dict_key": True}, {"same_hash": hash(x) == hash(y), "found_as_dict_key": found == 1}, len(definition))
+            return
+        rr = _safe(lambda: Style.parse(str(x)))
+        if rr[0] != "ok" or not (rr[1] == x):
+            _fail(res, "c06.spelling:hex_case", "Style.parse(str(x)) != x for a style given by an upper/mixed-case hex spelling", ikey, inp,
+                  str(x), rr[1] if rr[0] != "ok" else str(rr[1]), len(definition))
+
+    for r in lat:
+        for g in lat:
+            for b in lat:
+                h = "#%02x%02x%02x" % (r, g, b)
+                other = "#%02x%02x%02x" % (b, r, g)
+                for v in hex_case_variants(h):
+                    same_style("word", v, h, lambda: Style.parse(v), lambda: Style.parse(h), M(color=h))
+                    same_style("word", "on " + v, "on " + h, lambda: Style.parse("on " + v), lambda: Style.parse("on " + h), M(bgcolor=h))
+                    d, dl = "bold %s on %s" % (other, v), "bold %s on %s" % (other, h)
+                    same_style("word", d, dl, lambda: Style.parse(d), lambda: Style.parse(dl), M([True] + [None] * 12, color=other, bgcolor=h))
+                    d2, dl2 = "%s on %s" % (v, v), "%s on %s" % (h, h)
+                    same_style("word", d2, dl2, lambda: Style.parse(d2), lambda: Style.parse(dl2), M(color=h, bgcolor=h))
+                    same_style("color=", v, h, lambda: Style(color=v), lambda: Style(color=h), M(color=h))
+                    same_style("bgcolor=", v, h, lambda: Style(bgcolor=v), lambda: Style(bgcolor=h), M(bgcolor=h))
+                    same_style("color=Color.parse", v, h, lambda: Style(color=Color.parse(v)), lambda: Style(color=Color.parse(h)), M(color=h))
+                    same_style("keyword vs word", v, h, lambda: Style(color=v, bgcolor=v), lambda: Style.parse(dl2), M(color=h, bgcolor=h))
     for url in [l for l in LINKS if l] + ["HTTP://UPPER/Case", "a=b", "[x]"]:  # URLs keep their case
         expect("c06.spelling:link", "link " + url, M(link=url))
         expect("c06.spelling:link", "bold link " + url + " red", M([True] + [None] * 12, color="red", link=url))
@@ -482,6 +565,35 @@ def check_spellings(res):
 # (ii) algebra
 
 
+def _check_fold(res, seq_models: List[M], seq_styles: list, fold_model: M, folded):
+    """Style.combine / Style.chain over the sequence against the model's fold (and against `folded`, the same
+    sequence folded with + by the caller, if given)"""
+    from rich.style import Style
+
+    want = model_observation(fold_model)
+    expected_style = build(fold_model)
+    forms = (
+        ("Style.combine(list)", lambda: Style.combine(list(seq_styles))),
+        ("Style.combine(tuple)", lambda: Style.combine(tuple(seq_styles))),
+        ("Style.combine(iterator)", lambda: Style.combine(iter(seq_styles))),
+        ("Style.chain", lambda: Style.chain(*seq_styles)),
+    )
+    for label, make in forms:
+        res["evaluations"] += 1
+        _count(res, "c06.combine:fold")
+        r = _safe(make)
+        ok = r[0] == "ok" and observe(r[1]) == want and r[1] == expected_style and expected_style == r[1] and (folded is None or r[1] == folded)
+        ok_hash = ok and hash(r[1]) == hash(expected_style) and {expected_style: 1}.get(r[1]) == 1
+        if ok and ok_hash:
+            continue
+        _fail(
+            res, "c06.combine:fold",
+            ("%s of a sequence is not the fold of + (right-most style that specifies a field wins)" % label) if not ok else ("%s gives a style equal to the fold of + but with a different hash" % label),
+            repr((label, [sorted(m.kwargs().items()) for m in seq_models])), {"form": label, "sequence": [m.describe() for m in seq_models]},
+            repr(want), (repr(observe(r[1])) if not ok else "equal, hash differs") if r[0] == "ok" else r[1], sum(_size(m) for m in seq_models) + len(seq_models),
+        )
+
+
 def check_algebra(pool: List[M], lo: int, hi: int, res):
     """triples (a, b, c) with a = pool[i] for i in lo..hi"""
     from rich.style import Style
@@ -514,6 +626,14 @@ def check_algebra(pool: List[M], lo: int, hi: int, res):
             sab = r[1]
             if a.kwargs() and b.kwargs():
                 res["nontrivial"].add(("pair", i, j))
+            # sequences over {a, b} that repeat a style, through the sequence-combining API
+            for idx in ((0,), (0, 1), (0, 0, 1), (0, 1, 0), (0, 1, 1, 0), (1, 0, 1, 0)):
+                seq_models = [(a, b)[t] for t in idx]
+                seq_styles = [(sa, sb)[t] for t in idx]
+                fold_model = seq_models[0]
+                for mm in seq_models[1:]:
+                    fold_model = model_add(fold_model, mm)
+                _check_fold(res, seq_models, seq_styles, fold_model, None)
             for k in range(n):
                 sc = built[k]
                 res["evaluations"] += 1
@@ -526,6 +646,8 @@ def check_algebra(pool: List[M], lo: int, hi: int, res):
                 except Exception as e:
                     ok = False
                     obs = ("%s: %s" % (type(e).__name__, e), "")
+                if ok and (k == i or k == j or (i + j + k) % 4 == 0):
+                    _check_fold(res, [a, b, pool[k]], [sa, sb, sc], model_add(ab_model, pool[k]), left)
                 if not ok:
                     c = pool[k]
                     _fail(
@@ -606,8 +728,9 @@ def run(tier: str, seed: int) -> dict:
         "bound": "13 tri-state attributes as the 27-row orthogonal array OA(27,13,3,2) (all value pairs of every two attributes) plus single "
         "attributes plus random rows; %d colour spellings (unset, default, 16 standard names, color(0..255), #rrggbb and rgb(r,g,b) on a %d^3 "
         "lattice), each as foreground and as background, plus all pairs of %d representative spellings x 27 rows; links %r; %d model styles; "
-        "algebra pool of %d styles (all %d pairs, all %d triples); spellings: %d attribute words, all %d ANSI_COLOR_NAMES"
-        % (len(cols), 6 if tier == "quick" else 17, len(SMALL_COLOURS), LINKS, len(space), len(pool), len(pool) ** 2, len(pool) ** 3, len(ATTRIBUTE_WORDS), _n_names()),
+        "algebra pool of %d styles (all %d pairs, all %d triples; Style.combine / Style.chain over 6 repeat patterns of every pair and over the triples with k in {i, j} or (i+j+k) %% 4 == 0); "
+        "upper / mixed-case hex spellings on a %d^3 lattice in the style space and on the 6^3 lattice in the spelling check; spellings: %d attribute words, all %d ANSI_COLOR_NAMES"
+        % (len(cols), 6 if tier == "quick" else 17, len(SMALL_COLOURS), LINKS, len(space), len(pool), len(pool) ** 2, len(pool) ** 3, 6 if tier == "quick" else 9, len(ATTRIBUTE_WORDS), _n_names()),
         "samples": total["samples"][:8],
         "clauses": dict(sorted(total["clauses"].items())),
         "failures": failures,
